@@ -146,6 +146,7 @@ def gen_match_grammar(r):
 
 
 def read_strs(rs_text):
+    rs_text = vlib.norm_prefix(rs_text)
     m = re.search(r"let __strs: &\[\(&str, bool\)\] = &\[(.*?)\n        \];", rs_text, re.S)
     out = []
     for mm in re.finditer(r'\((r?"(?:[^"\\]|\\.)*"), (true|false)\),', m.group(1)):
@@ -175,6 +176,7 @@ def eval_rust_str(lit):
 
 def read_token_map(rs_text):
     """lexer index -> terminal name (from __token_to_integer and __TERMINAL)"""
+    rs_text = vlib.norm_prefix(rs_text)
     terms = re.findall(r'r###"(.*?)"###,\n', re.search(r"const __TERMINAL: &\[&str\] = &\[(.*?)\n    \];", rs_text, re.S).group(1) + "\n", re.S)
     mp = {}
     for mm in re.finditer(r"Token\((\d+), _\) if true => Some\((\d+)\),", rs_text):
